@@ -1,0 +1,79 @@
+//go:build verif
+
+// Contracts for gzv (contract-based deductive verification, /verif). Comment-only file.
+package internal
+
+// ---------------------------------------------------------------------------------------------
+// C13 registry side: the diff of a reload snapshot against the registry's copy.
+// addKeys / remKeys are ghost sets mirroring the keys appended to `add` / `remove`.
+// ---------------------------------------------------------------------------------------------
+//@ ghost var addKeys map[string]bool
+//@ ghost var remKeys map[string]bool
+
+//@ func calculateChanges
+//@   property C13
+//@   requires oldVals != nil && newVals != nil
+//@   ensures  forall(k.(string), addKeys[k] == (inDom(newVals, k) && (!inDom(oldVals, k) || oldVals[k] != newVals[k])))
+//@   ensures  forall(k.(string), remKeys[k] == (inDom(oldVals, k) && !inDom(newVals, k)))
+//@   ensures  forall(i.(int), implies(0 <= i && i < len(add), addKeys[add[i].Key] && add[i].Val == newVals[add[i].Key]))
+//@   ensures  forall(i.(int), implies(0 <= i && i < len(remove), remKeys[remove[i].Key]))
+//@   modifies addKeys, remKeys
+//@   allocates
+//@   ghost at entry: addKeys = nokeys()
+//@   ghost at entry: remKeys = nokeys()
+//@   ghost at before append#0: addKeys[k] = true
+//@   ghost at before append#1: remKeys[k] = true
+//@   loop 0: modifies addKeys
+//@   loop 0: invariant forall(x.(string), addKeys[x] == (seen[x] && (!inDom(oldVals, x) || oldVals[x] != newVals[x])))
+//@   loop 0: invariant forall(i.(int), implies(0 <= i && i < len(add), addKeys[add[i].Key] && add[i].Val == newVals[add[i].Key]))
+//@   loop 1: modifies remKeys
+//@   loop 1: invariant forall(x.(string), remKeys[x] == (seen[x] && !inDom(newVals, x)))
+//@   loop 1: invariant forall(i.(int), implies(0 <= i && i < len(remove), remKeys[remove[i].Key]))
+
+// Applying the adds as updates and then the removes as deletions to a view that equals the old snapshot yields the new one.
+//@ lemma reload_converges(oldD map[string]bool, oldV map[string]string, newD map[string]bool, newV map[string]string, addK map[string]bool, remK map[string]bool, d1 map[string]bool, v1 map[string]string, d2 map[string]bool)
+//@   property C13
+//@   hyp forall(k.(string), addK[k] == (newD[k] && (!oldD[k] || oldV[k] != newV[k])))
+//@   hyp forall(k.(string), remK[k] == (oldD[k] && !newD[k]))
+//@   hyp forall(k.(string), d1[k] == (oldD[k] || addK[k]) && v1[k] == ite(addK[k], newV[k], oldV[k]))
+//@   hyp forall(k.(string), d2[k] == (d1[k] && !remK[k]))
+//@   goal forall(k.(string), d2[k] == newD[k] && implies(d2[k], v1[k] == newV[k]))
+
+// Listeners are told about a change only after the registry's own copy reflects it (and with exactly that key/value).
+//@ ghost var lsnState int
+//@ extern func (l UpdateListener) OnAdd
+//@   modifies lsnState
+//@ extern func (l UpdateListener) OnDelete
+//@   modifies lsnState
+
+//@ func (c *cluster) handleWatchEvents
+//@   property C13
+//@   flag nolock
+//@   requires implies(inDom(c.watchers, key), c.watchers[key] != nil && c.watchers[key].values != nil)
+//@   call OnAdd#0: assert inDom(watcher.values, arg_kv.Key) && watcher.values[arg_kv.Key] == arg_kv.Val && arg_kv.Key == string(ev.Kv.Key) && arg_kv.Val == string(ev.Kv.Value)
+//@   call OnDelete#0: assert !inDom(watcher.values, arg_kv.Key) && arg_kv.Key == string(ev.Kv.Key)
+//@   loop 0: modifies mapof(watcher.values), lsnState
+//@   loop 0: invariant watcher != nil && watcher.values != nil
+//@   loop 1: modifies lsnState
+//@   loop 1: invariant true
+//@   loop 2: modifies lsnState
+//@   loop 2: invariant true
+
+//@ func (c *cluster) handleChanges
+//@   property C13
+//@   flag nolock
+//@   requires implies(inDom(c.watchers, key), c.watchers[key] != nil && c.watchers[key].values != nil)
+//@   ghost at after calculateChanges#0: newV = newVals
+//@   ensures  implies(old(inDom(c.watchers, key)), forall(i.(int), implies(0 <= i && i < len(kvs), inDom(c.watchers[key].values, kvs[i].Key))))
+//@   call OnAdd#0: assert addKeys[arg_kv.Key] && arg_kv.Val == c.watchers[key].values[arg_kv.Key]
+//@   call OnDelete#0: assert remKeys[arg_kv.Key]
+//@   loop 0: modifies mapof(newVals)
+//@   loop 0: invariant forall(i.(int), implies(0 <= i && i < idx, inDom(newVals, kvs[i].Key)))
+//@   loop 1: modifies lsnState
+//@   loop 1: invariant true
+//@   loop 2: modifies lsnState
+//@   loop 2: invariant true
+//@   loop 3: modifies lsnState
+//@   loop 3: invariant true
+//@   loop 4: modifies lsnState
+//@   loop 4: invariant true
